@@ -96,7 +96,6 @@ func declName(r *itDeclRef) string {
 	return fd.Name.Name
 }
 
-
 // ---- C05.combine ----
 func ruleIterCombine(cx *Ctx) {
 	const rule = "C05.combine"
